@@ -21,12 +21,7 @@ import traceback
 from .common import NCPU, jdump, short_hash
 
 
-class Violation(Exception):
-    pass
-
-
-class Undecided(Exception):
-    pass
+from .contract import Undecided, Violation  # noqa: E402,F401
 
 
 SOLVER_MODULES = ("cvxopt", "scs", "picos/solvers", "clarabel", "osqp", "ecos", "cvxpy/reductions/solvers", "cvxpy/problems/problem")
